@@ -659,6 +659,51 @@ def scenarios(ctx, facts, tier):
     def D_has(cname):
         return Design(facts).el.find_class(cname)
 
+    def s_move_driven(method):
+        # a wire that already has a driver and readers is moved / renamed: it stays the same net (driver kept, second driver still refused)
+        def f():
+            D = Design(facts)
+            a, b, r = D.wire('a'), D.wire('b'), D.wire('r')
+            D.make('Buf', 'b1', a, r)
+            D.make('Buf', 'rd', r, D.wire('r2'))
+            other = D.make('Logic', 'other')
+            src = r.attrs.get('source')
+            args = dict(rename=['moved'], reparent=[other], reparentAndRename=[other, 'moved'])[method]
+            D.el.call(D.el.getattr_(r, method), args, {}, {})
+            if r.attrs.get('source') is not src or src is None:
+                return 'after %s() the wire has forgotten its driver' % method
+            if not r.attrs.get('sinks'):
+                return 'after %s() the wire has forgotten its readers' % method
+            if not raises(D, lambda: D.make('Buf', 'b2', b, r)):
+                return 'after %s() a second driver is accepted on a wire that already has one' % method
+            return None
+        return f
+
+    def s_integrity_twice():
+        # the check is a function of the hierarchy as it is now: a fault added (anywhere below) after a successful check is found by the next one
+        D = Design(facts)
+        a, r = D.wire('a', 2), D.wire('r', 2)
+        D.make('Constant', 'ka', 1, a)
+        sub = D.make('Logic', 'sub')
+        for nm, w, meth in (('a', a, 'addIn'), ('r', r, 'addOut')):
+            D.el.call(D.el.getattr_(sub, meth), [nm, w], {}, {})
+        D.el.instantiate(D.el.find_class('Buf'), [sub, 'inner', a, r], {})
+        D.make('Buf', 'reader', r, D.wire('r2', 2))
+        try:
+            integrity(D, D.sys)
+        except (ElabRaise, PyExc) as e:
+            return 'a well-formed hierarchy is rejected: %s' % str(e)[:60]
+        u = D.wire('u', 2)                       # nobody drives u
+        D.el.instantiate(D.el.find_class('Buf'), [sub, 'late', u, D.wire('x', 2)], {})
+        try:
+            integrity(D, D.sys)
+            return 'a block with an undriven input added one level down after a successful check is accepted by the next check'
+        except (ElabRaise, PyExc):
+            return None
+
+    for mth in ('rename', 'reparent', 'reparentAndRename'):
+        attempt('%s of a wire that is already driven and read' % mth, s_move_driven(mth))
+    attempt('integrity: fault added below after a successful check', s_integrity_twice)
     attempt('duplicate child name, earlier child still empty (second empty too)', s_duplicate_child_empty('empty'))
     attempt('duplicate child name, earlier child still empty (second a library block)', s_duplicate_child_empty('block'))
     attempt('integrity: undriven wire on a port of an intermediate structural block only', s_fault_structural_port)
